@@ -638,3 +638,146 @@ def check_asciibitmap(facts):
         r.fail(key, "the guard lets `last` reach %d but the bitmap has %d bits: set(%d) indexes past the array (panic while compiling)" % (
             bound, cap, bound), facts.loc(fn))
     return r
+
+
+# ---- ASCIIGUARD -----------------------------------------------------------------------------
+
+def check_asciiguard(facts):
+    r = RuleResult("ASCIIGUARD", "a set of code points is lowered to a raw *byte* set (Node::ByteSet / Piece::ByteSet, built with `c as u8`) only "
+                                 "under an `all(|c| c <= 0x7F)` test: a byte >= 0x80 in a byte set matches UTF-8 continuation / lead bytes and "
+                                 "lands the cursor inside a character")
+    n = 0
+    for fn in sorted(facts.body_names()):
+        if "{closure" in fn:
+            continue
+        b = facts.body(fn)
+        builds = []
+        for bi, i, s in b.iter_stmts():
+            if s["k"] == "assign" and s["rv"]["k"] == "agg" and s["rv"].get("variant") == "ByteSet" \
+                    and s["rv"].get("adt") in ("ir::Node", "literal::Piece"):
+                builds.append((bi, s))
+        if not builds:
+            continue
+        for bi, s in builds:
+            # the vector must come from a u32 -> u8 narrowing map, i.e. a fresh lowering (not a copy of an existing ByteSet)
+            op = s["rv"]["ops"][0]
+            d = b.single_def(op["pl"]["l"]) if op["k"] in ("copy", "move") else None
+            if not (d and d[2] == "call" and (d[3].get("callee") or "").endswith("collect")):
+                continue
+            n += 1
+            key = "%s lowers to ByteSet" % fn
+            # dominating `all(...)` call whose closure compares with a constant
+            ok = None
+            for dd in b.dom()[bi]:
+                t = b.blocks[dd]["t"]
+                if t["k"] == "call" and (t.get("callee") or "").endswith("Iterator::all"):
+                    cl = t["args"][1]
+                    cd = b.single_def(cl["pl"]["l"]) if cl["k"] in ("copy", "move") else None
+                    if cd and cd[2] == "assign" and cd[3]["rv"]["k"] == "agg" and cd[3]["rv"].get("ak") == "closure":
+                        cb = facts.body(cd[3]["rv"]["def"]) if facts.has_body(cd[3]["rv"]["def"]) else None
+                        if cb:
+                            for ci, cj, cs in cb.iter_stmts():
+                                if cs["k"] == "assign" and cs["rv"]["k"] == "bin" and cs["rv"]["op"] in ("Le", "Lt"):
+                                    k = cs["rv"]["b"].get("int")
+                                    if k is not None:
+                                        lim = k if cs["rv"]["op"] == "Le" else k - 1
+                                        ok = lim
+            if ok is None:
+                r.fail(key, "no `all(|c| c <= 0x7F)` test dominates the construction of the byte set", facts.loc(fn, s["line"]))
+            elif ok <= 0x7F:
+                r.ok(key, "guarded by all(c <= %#x)" % ok)
+            else:
+                r.fail(key, "the ASCII test admits code points up to %#x: bytes >= 0x80 in a raw byte set match inside multi-byte characters" % ok,
+                       facts.loc(fn, s["line"]))
+    r.floor("byte_set_lowerings", n, 2)
+    return r
+
+
+# ---- KEEPLIVE -------------------------------------------------------------------------------
+
+def check_keeplive(facts):
+    r = RuleResult("KEEPLIVE", "optimizer::propagate_early_fails: where one arm of an Alt is selected by a branch on `X.match_always_fails()`, "
+                               "the arm kept on the true edge is never X itself and the arm kept on the false edge is X (the surviving arm "
+                               "replaces the alternation; keeping the dead one makes the whole alternation unmatchable)")
+    fn = "optimizer::propagate_early_fails"
+    if not facts.has_body(fn):
+        r.error("anchor %s not found" % fn)
+        return r
+    b = facts.body(fn)
+    flags = {}
+    for l, d in enumerate(b.locals):
+        df = b.single_def(l)
+        if d.get("name") and df and df[2] == "call" and (df[3].get("callee") or "") == "ir::Node::match_always_fails":
+            a0 = df[3]["args"][0]
+            if a0["k"] in ("copy", "move"):
+                # the binding the receiver derives from
+                cur = a0["pl"]["l"]
+                src = None
+                for _ in range(10):
+                    if b.local_name(cur):
+                        src = cur
+                        break
+                    dd = b.single_def(cur)
+                    if not dd or dd[2] != "assign":
+                        break
+                    rv = dd[3]["rv"]
+                    nxt = rv.get("pl") if rv["k"] == "ref" else (rv.get("op") or {}).get("pl")
+                    if not nxt:
+                        break
+                    cur = nxt["l"]
+                if src is not None:
+                    flags[l] = src
+    n = 0
+    arms = {v for v in flags.values()}
+    for bb in sorted(b.reachable()):
+        t = b.blocks[bb]["t"]
+        if t["k"] != "switch" or t["discr"]["k"] not in ("copy", "move"):
+            continue
+        l = t["discr"]["pl"]["l"]
+        d0 = b.single_def(l)
+        if l not in flags and d0 and d0[2] == "assign" and d0[3]["rv"]["k"] == "use" and d0[3]["rv"]["op"]["k"] in ("copy", "move"):
+            l = d0[3]["rv"]["op"]["pl"]["l"]
+        if l not in flags:
+            continue
+        X = flags[l]
+        tt = t["otherwise"]
+        ff = [tg for v, tg in t["targets"] if v == 0]
+        if not ff:
+            continue
+        ff = ff[0]
+        dom = b.dom()
+        reg_t = {x for x in b.reachable() if tt in dom[x] and ff not in dom[x]}
+        reg_f = {x for x in b.reachable() if ff in dom[x] and tt not in dom[x]}
+
+        def taken(region):
+            out = set()
+            for x in region:
+                for s in b.blocks[x]["s"]:
+                    if s["k"] == "assign" and s["rv"]["k"] == "ref" and s["rv"]["m"] == "mut":
+                        pl = s["rv"]["pl"]
+                        if pl["l"] in arms and pl["p"][:1] == ["*"]:
+                            out.add(pl["l"])
+            return out
+        kt, kf = taken(reg_t), taken(reg_f)
+        if not kt and not kf:
+            continue
+        n += 1
+        key = "%s selection on %s.match_always_fails()" % (fn, b.local_name(X))
+        if X in kt or (kf and kf != {X}):
+            r.fail(key, "the alternation is replaced by an arm chosen wrongly: on the `%s fails` edge it takes %s, on the other edge %s — the "
+                        "arm that can never match is kept" % (b.local_name(X), sorted(b.local_name(x) for x in kt), sorted(b.local_name(x) for x in kf)),
+                   facts.loc(fn, t.get("line")))
+        else:
+            r.ok(key, "true edge keeps %s, false edge keeps %s" % (sorted(b.local_name(x) for x in kt), sorted(b.local_name(x) for x in kf)))
+    if n == 0:
+        # no selection at all: is an arm still taken?
+        for bi, i, s in b.iter_stmts():
+            if s["k"] == "assign" and s["rv"]["k"] == "ref" and s["rv"]["m"] == "mut" and s["rv"]["pl"]["l"] in arms \
+                    and s["rv"]["pl"]["p"][:1] == ["*"]:
+                r.fail("%s selection on match_always_fails()" % fn, "an arm of the alternation (`%s`) is taken unconditionally (line %s) although "
+                       "which arm survives depends on match_always_fails(): the arm that can never match may be kept" % (
+                           b.local_name(s["rv"]["pl"]["l"]), s["line"]), facts.loc(fn, s["line"]))
+                n += 1
+                break
+    r.floor("arm_selections", n, 1)
+    return r
